@@ -76,6 +76,9 @@ def gen_dir(ch, depth, counter, top=False):
             idx["ordered"] = ch.shuffle(entries)[:k]
             if ch.bool(1, 6):
                 idx["ordered"].insert(ch.int(len(idx["ordered"]) + 1), "index.md")
+            if ch.bool(1, 6):
+                # the same entry named twice: it is still one page, at its first position
+                idx["ordered"].insert(ch.int(len(idx["ordered"]) + 1), ch.choice(idx["ordered"]))
             if ch.bool(1, 12):
                 idx["missing"] = "ghost.md"
                 idx["ordered"].insert(ch.int(len(idx["ordered"]) + 1), "ghost.md")
@@ -95,7 +98,7 @@ def expected_pages(d, loc=""):
         return None
     pages.append(os.path.join(loc, "index.html"))
     entries = sorted(list(d["files"]) + list(d["dirs"]) + d["other"] + list(d["copydirs"]) + d["hidden"])
-    order = [x for x in d["index"]["ordered"] if x != "index.md"]
+    order = list(dict.fromkeys(x for x in d["index"]["ordered"] if x != "index.md"))
     merged = list(dict.fromkeys(order + entries))
     for name in merged:
         if name.startswith(".") or name.endswith("~"):
